@@ -401,6 +401,27 @@ CANON = [('construct', ''), ('find_slices', ''), ('find_groups', ''), ('find_lay
          ('metar_msg', 'slices'), ('metar_msg', 'groups'), ('metar_msg', 'layers')]
 
 
+NO_CANON = {'has': False, 'ng': 'zero', 'merged': False, 'split': False, 'tbl': {w: [] for w in WHICH}, 'msg': {w: [] for w in WHICH},
+            'ids': {'s': [], 'g': [], 'l': []}}
+
+
+def canonical_reference(desc):
+    """ tables, ids and messages of the canonical slices-groups-layers run of the same scene """
+    d2 = dict(desc)
+    d2['ops'] = CANON
+    rec = Recorder(d2)
+    for op in CANON:
+        ev = rec.do(op[0], op[1])
+        if ev['res'] != 'ok':
+            return NO_CANON
+    last = rec.events[-1]
+    msgs = {e['arg']: e['msg'] for e in rec.events if e['op'] == 'metar_msg'}
+    merged = any(e['op'] == 'find_groups' and e['taps']['hasg0'] and e['taps']['g0'] != e['taps']['g1'] for e in rec.events)
+    split = any(r['x'] >= 2 for r in last['tbl']['groups'])
+    return {'has': True, 'ng': 'some' if len(last['tbl']['groups']) > 0 else 'zero',
+            'tbl': last['tbl'], 'msg': msgs, 'ids': last['ids'], 'merged': merged, 'split': split}
+
+
 def run_scenario(desc):
     """ Run one scenario (descriptor dict) through the real code; returns the trace record.
     On a value the projection cannot represent, returns {'inexact': reason}. """
@@ -418,6 +439,7 @@ def run_scenario(desc):
             if op[0] == 'construct' and ev['res'] != 'ok':
                 break
         tr = rec.finish()
+        tr['canon'] = canonical_reference(desc) if desc.get('with_canon') else NO_CANON
         tr['desc'] = {'indomain': bool(desc.get('indomain', True))}
         tr['nrows'] = len(desc['rows'])
         return tr
